@@ -138,8 +138,8 @@ def mk_not(t):
 
 
 def _split_call(t):
-    """t = xs.split_last() / xs.split_first()  ->  (method, xs)"""
-    if isinstance(t, tuple) and t and t[0] == "call" and len(t) > 2 and len(t[2]) == 1 and method_name(t[1]) in ("split_last", "split_first") and "slice" in t[1]:
+    """t = xs.split_last() / xs.split_first() / xs.last() / xs.first()  ->  (method, xs)"""
+    if isinstance(t, tuple) and t and t[0] == "call" and len(t) > 2 and len(t[2]) == 1 and method_name(t[1]) in ("split_last", "split_first", "last", "first") and "slice" in t[1]:
         return method_name(t[1]), strip(t[2][0])
     return None
 
@@ -731,6 +731,10 @@ class Evaluator:
                     # xs.split_last() = Some((&xs[len-1], &xs[0..len-1]));  xs.split_first() = Some((&xs[0], &xs[1..]))
                     xs = sp[1]
                     one = T("const", T("int", 1, "usize"))
+                    if sp[0] == "last":
+                        return T("index", xs, T("binop", "Sub", T("len", xs), one))      # xs.last() = Some(&xs[len-1])
+                    if sp[0] == "first":
+                        return T("index", xs, T("const", T("int", 0, "usize")))
                     if sp[0] == "split_last":
                         end = T("binop", "Sub", T("len", xs), one)
                         return T("tuple", (T("index", xs, end), T("index", xs, T("agg", "std::ops::Range", "Range", (T("const", T("int", 0, "usize")), end), ("start", "end")))))
@@ -1552,6 +1556,8 @@ class Walker:
         if spec is None or len(args) <= spec[4]:
             return None
         f = args[spec[4]]
+        if isinstance(f, tuple) and f and f[0] == "const" and isinstance(f[1], tuple) and f[1][0] == "fn" and f[1][1] in self.body.facts.bodies and "f(v)" in spec[2] + spec[3]:
+            return spec        # a crate-local function used as the closure:  opt.map_or(false, is_action_key)
         if not (isinstance(f, tuple) and f and f[0] == "closure" and f[1] in self.body.facts.bodies):
             return None
         return spec
@@ -1562,6 +1568,12 @@ class Walker:
         f = args[fi]
         atom = T("variantof", o)
         fixed = o[2] if isinstance(o, tuple) and o and o[0] == "agg" and len(o) > 2 else None
+        sp = _split_call(o)
+        if sp is not None:
+            atom = T("empty", sp[1])      # xs.last()/first()/split_*() is None exactly when xs is empty
+
+        def gval(variant):
+            return (variant == "None") if sp is not None else variant
 
         def payload(variant):
             return ev._field(T("variant", o, variant), "0", 0)
@@ -1571,16 +1583,34 @@ class Walker:
         for variant, what in ((hit, on_hit), (miss, on_miss)):
             if fixed is not None and fixed != variant:
                 continue
-            if atom in known and not self._compatible(known[atom], variant):
+            if atom in known and not self._compatible(known[atom], gval(variant)):
                 continue
             e2 = self._fork(ev)
             evs2 = list(events)
             k2 = dict(known)
             if fixed is None and atom not in k2:
-                evs2.append(Ev("guard", n, atom, variant))
-                k2[atom] = variant
+                evs2.append(Ev("guard", n, atom, gval(variant)))
+                k2[atom] = gval(variant)
             elif fixed is None:
-                k2[atom] = variant
+                k2[atom] = gval(variant)
+            if "f(v)" in what and f[0] == "const":
+                fname = f[1][1]
+                pv = payload(variant)
+                res = e2.mk_call(fname, (pv,), t, n)
+                evs2.append(Ev("call", n, fname, (pv,), res, (), span=t["span"]["line"]))
+                if what.startswith(("Some(", "Ok(", "Err(")):
+                    res = fresh(what.split("(")[0], res)
+                dest = t["dest"]
+                if not dest["p"]:
+                    e2.env[dest["l"]] = res
+                else:
+                    savedm = e2.mem
+                    e2.mem = {}
+                    pt = e2.place(dest)
+                    e2.mem = savedm
+                    e2.mem[pt] = res
+                self._go(t["t"], e2, evs2, k2, blocks + [t["t"]])
+                continue
             if "f(" in what:
                 wrap = None
                 if what.startswith(("Some(", "Ok(", "Err(")):
